@@ -213,4 +213,15 @@ pub fn run(r: &mut Runner) {
             }
         });
     }
+    {
+        let gs = crate::fx::generic_stream(if quick { 15000 } else { 1500000 }, 116, -40, 19);
+        let ngs = gs.len();
+        r.notes.push(format!("generic stream for sin/cos/tan: {} operands of a fixed Weyl sequence (full-size mantissas in both words, exponents -40..19)", ngs));
+        r.par("generic stream: sin/cos/tan", ngs.div_ceil(64), ngs as u64, |c, l| {
+            for i in (c * 64)..((c + 1) * 64).min(ngs) {
+                let v = judge(gs[i], Some(l));
+                rec.record(l, (1u64 << 58) + i as u64, v);
+            }
+        });
+    }
 }
